@@ -107,6 +107,7 @@ NAMES = ["Default", "Cargo", "Go", "Maven", "NPM", "NuGet", "PyPI", "RubyGems", 
 sys.path.insert(0, os.path.join(lib.VERIF, "harness", "ref"))
 
 
+MVN_BELOW0 = re.compile(rb"^0(\.0)*-(alpha|beta|milestone|rc|cr|snapshot|[abm]\d)", re.I)
 DOT_QUAL = re.compile(rb"\.[A-Za-z]|[A-Za-z]\.\d")
 NPM_CMP = re.compile(rb"(?:[<>=~^]+\s*)?[0-9A-Za-z.*+-]+")
 MVN_GROUP = re.compile(rb"[\[(][^\])]*[\])]")
@@ -635,6 +636,12 @@ def class_of(c, h, ev, impl_line):
         for op, v, prefix in c["ast"]:
             if op == 8 and not prefix and not any(v[0]) and (v[1] or v[3] != -1):
                 return "F-C03-11"
+        return None
+    if eco == "mavenq" and rejected:
+        # F-C03-16: no lower bound is the version 0 for deps.dev; an upper bound below 0 (a
+        # qualifier that sorts before the release on all-zero numbers) then fails newSpan
+        if c["ast"][0] == 1 and any(not lo and hi and MVN_BELOW0.match(hi[0]) for _, lo, _, hi in c["ast"][1]):
+            return "F-C03-16"
         return None
     if rejected:
         return None
